@@ -13,7 +13,8 @@ run_demo() {
 }
 git -C $W checkout -- aiohttp || exit 9
 run_demo; clean=$?
-git -C $W apply $D/patch.diff || { echo "PATCH-FAILS-TO-APPLY"; exit 9; }
+git -C $W apply $D/patch.diff 2>/dev/null || git -C $W apply --3way $D/patch.diff || { echo "PATCH-FAILS-TO-APPLY $W $K"; exit 9; }
+git -C $W reset -q; git -C $W diff -- aiohttp > $D/patch.head.diff
 run_demo; patched=$?
 echo "$W/$K demo: clean=$clean patched=$patched  ($(tail -1 /tmp/vs.$$.log | cut -c1-150))"
 rm -f /tmp/vs.$$.log
